@@ -781,7 +781,7 @@ def gen_write(E, fx, rng):
             klass = Unsigned if idx == 0 else dt.subtype
         else:
             klass = dt
-    elif r < 0.74 and limited_unsigned(p.datatype) is not None:
+    elif r < 0.74 and limited_unsigned(p.datatype) is not None and idx != 0:
         # right tag, value beyond the limit of the Unsigned subclass (Unsigned8, Unsigned16, ...)
         tags = over_limit_tags(E, p.datatype, idx, rng)
         prio = None
@@ -804,6 +804,12 @@ def gen_write(E, fx, rng):
         if tags is None:
             tags = [[0, 0, 0, ""]]
             vclass = "null"
+    if idx == 0 and len(tags) == 1 and tags[0][0] == 0 and tags[0][1] == 2:
+        # array[0] := m resizes the array to m elements: keep m small (a count of 2^32-1 makes the
+        # device — and the model — allocate four billion elements; noted in notes/C15.md)
+        m = int.from_bytes(bytes.fromhex(tags[0][3]) or b"\0", "big")
+        if m > n + 40:
+            tags = jt(any_of_value(Unsigned(n + 2)).tagList)
     prio = rng.choice([None, None, None, 1, 8, 16, rng.randrange(1, 17), 0, 17, -1]) if (is_cmd or rng.random() < 0.2) else None
     op = {"op": "wp", "oid": oid, "pid": pid, "idx": idx, "tags": tags, "prio": prio, "vclass": vclass}
     # clauses owned by C17 (see ASSUMPTIONS): keep them out of the stream
@@ -1416,9 +1422,9 @@ def run_corpus(ctx):
 def run(ctx):
     run_corpus(ctx)
     if ctx.quick:
-        specs = [("q%d" % i, 2, 8, 110) for i in range(16)]
+        specs = [("q%d" % i, 3, 8, 110) for i in range(16)]
     else:
-        specs = [("t%d" % i, 6, 11, 400) for i in range(64)]
+        specs = [("t%d" % i, 5, 10, 300) for i in range(48)]
     core.run_shards(ctx, "harness.c15", "shard", specs)
     ctx.exhaustive = False
 
